@@ -151,14 +151,20 @@ Qed.
 
 Ltac piece_len := cbn [concat]; rewrite ?app_nil_r; repeat (rewrite ?app_length; cbn [length]).
 
-Theorem atom_line_roundtrip : forall t xyz occ b rest, fits t xyz occ b ->
-  read_atom (atom_line t xyz occ b ++ rest) 81 =
+(* columns 1-78 followed by ANY two bytes d1 d2 (the charge columns, or a line end when trailing blanks were stripped)
+   in a line of any length len > 78: everything but the charge is read back from columns 1-78 alone *)
+Theorem atom_head_read : forall t xyz occ b d1 d2 len rest, fits t xyz occ b -> (78 < len)%nat ->
+  read_atom (concat (atom_head t xyz occ b) ++ [d1; d2] ++ rest) len =
   mkRd (t_het t) (t_serial t) (t_name t) (t_altloc t) (t_resname t) (t_chain t) (Some (t_seqnum t), t_icode t)
        (t_segment t)
        (Some (match t_el t with [e] => (32, e) | [e1; e2] => (e1, e2) | _ => (0, 0) end))
-       (Some (t_charge t)) xyz occ b.
+       (read_charge d1 d2) xyz occ b.
 Proof.
-  intros t xyz occ b rest F. destruct F.
+  intros t xyz occ b c1 c2 len rest F Hlen.
+  replace (concat (atom_head t xyz occ b) ++ [c1; c2] ++ rest)
+    with (concat (atom_head t xyz occ b ++ [[c1; c2]]) ++ rest)
+    by (rewrite concat_app; cbn [concat]; rewrite app_nil_r, <- app_assoc; reflexivity).
+  destruct F.
   destruct f_name0 as [Tn Ln]. destruct f_resname0 as [Tr Lr]. destruct f_chain0 as [Tc Lc].
   destruct f_segment0 as [Ts Ls]. destruct f_icode0 as [I1 I2].
   pose proof (field5_serial_length _ f_serial0) as LS. pose proof (field5_seqid_length _ (t_icode t) f_seqnum0) as LQ.
@@ -174,7 +180,7 @@ Proof.
   assert (Lel : length (rjust 2 (t_el t)) = 2%nat).
   { destruct f_el0 as [[e [-> _]]|[e1 [e2 [-> _]]]]; reflexivity. }
   assert (Lrec : length (if t_het t then REC_HETATM else REC_ATOM) = 6%nat) by (destruct (t_het t); reflexivity).
-  unfold atom_line, atom_pieces.
+  unfold atom_head. cbn [app].
   set (P0 := if t_het t then REC_HETATM else REC_ATOM) in *.
   set (P1 := field5 (encode_serial (t_serial t))) in *.
   set (P3 := ljust_trunc 4 (padded_name t)) in *.
@@ -191,7 +197,6 @@ Proof.
   assert (L6 : length P6 = 2%nat) by exact Lch.
   assert (L13 : length P13 = 4%nat) by exact Lseg.
   assert (L14 : length P14 = 2%nat) by exact Lel.
-  set (c1 := fst (write_charge (t_charge t))). set (c2 := snd (write_charge (t_charge t))).
   set (ALT := [write_altloc (t_altloc t)]).
   assert (LA : length ALT = 1%nat) by reflexivity.
   set (all := [P0; P1; [32]; P3; ALT; P5; P6; P7; [32;32;32]; xyz; occ; b; [32;32;32;32;32;32]; P13; P14; [c1; c2]]).
@@ -231,8 +236,10 @@ Proof.
     replace (1 - length P14)%nat with 0%nat by lia. reflexivity. }
   assert (A79 : chn 79 (concat all ++ rest) = c2).
   { unfold chn, at_. change 79%nat with (78 + 1)%nat. rewrite <- (skipn_skipn_ Z 78 1). fold (at_ 78 (concat all ++ rest)). rewrite A78. reflexivity. }
-  unfold read_atom. unfold chn at 1 2 3 5 7. rewrite A0, A6, A12, A16, A17, A20, A22, A30, A54, A60, A72, A76, A78, A77, A79.
-  change (72 <? 81)%nat with true. change (76 <? 81)%nat with true. change (78 <? 81)%nat with true. cbv iota. cbn [andb].
+  match goal with |- read_atom (concat ?L ++ rest) len = _ => change L with all end. unfold read_atom. unfold chn at 1 2 3 5 7. rewrite A0, A6, A12, A16, A17, A20, A22, A30, A54, A60, A72, A76, A78, A77, A79.
+  replace (72 <? len)%nat with true by (symmetry; apply Nat.ltb_lt; lia).
+  replace (76 <? len)%nat with true by (symmetry; apply Nat.ltb_lt; lia).
+  replace (78 <? len)%nat with true by (symmetry; apply Nat.ltb_lt; lia). cbv iota. cbn [andb].
   f_equal.
   - (* record name *)
     unfold P0. destruct (t_het t); reflexivity.
@@ -277,12 +284,46 @@ Proof.
       replace ((65 <=? e) && (e <=? 90)) with true by lia. rewrite orb_true_r. reflexivity.
     + cbn [rjust length Nat.sub repeat app concat cur skipn]. unfold is_alpha.
       replace ((65 <=? e1) && (e1 <=? 90)) with true by lia. reflexivity.
-  - (* charge *)
-    cbn [app cur]. unfold c1, c2. pose proof (charge_roundtrip (t_charge t) f_charge0) as Q.
-    destruct (write_charge (t_charge t)) as [dg sg]. exact Q.
   - cbn [concat]. rewrite <- app_assoc. rewrite firstn_app, <- f_xyz0, firstn_all, Nat.sub_diag. cbn [firstn]. apply app_nil_r.
   - cbn [concat]. rewrite <- app_assoc. rewrite firstn_app, <- f_occ0, firstn_all, Nat.sub_diag. cbn [firstn]. apply app_nil_r.
   - cbn [concat]. rewrite <- app_assoc. rewrite firstn_app, <- f_b0, firstn_all, Nat.sub_diag. cbn [firstn]. apply app_nil_r.
+Qed.
+
+Theorem atom_line_roundtrip : forall t xyz occ b rest, fits t xyz occ b ->
+  read_atom (atom_line t xyz occ b ++ rest) 81 =
+  mkRd (t_het t) (t_serial t) (t_name t) (t_altloc t) (t_resname t) (t_chain t) (Some (t_seqnum t), t_icode t)
+       (t_segment t)
+       (Some (match t_el t with [e] => (32, e) | [e1; e2] => (e1, e2) | _ => (0, 0) end))
+       (Some (t_charge t)) xyz occ b.
+Proof.
+  intros t xyz occ b rest F.
+  unfold atom_line, atom_pieces. rewrite concat_app. cbn [concat]. rewrite app_nil_r, <- app_assoc.
+  rewrite (atom_head_read t xyz occ b _ _ 81 rest F) by lia.
+  pose proof (charge_roundtrip (t_charge t) (f_charge _ _ _ _ F)) as Q.
+  destruct (write_charge (t_charge t)) as [dg sg]. cbn [fst snd]. rewrite Q. reflexivity.
+Qed.
+
+(* PADDING AND LINE ENDS for the ATOM / HETATM record as gemmi writes it: when the charge columns are blank (charge 0)
+   the line may lose its two trailing blanks (LF, or CR LF, follows column 78), or one of them, or keep them before a
+   CR: the record is read exactly as from the full 80 columns.  tail = the two bytes found in columns 79-80. *)
+Definition neutral_tail (d1 d2 : Z) : Prop :=
+  (d1 = 32 /\ d2 = 32) \/ (d1 = 10 /\ d2 = 0) \/ (d1 = 13 /\ d2 = 10) \/ (d1 = 32 /\ d2 = 10) \/ (d1 = 32 /\ d2 = 13).
+
+Theorem atom_line_padding : forall t xyz occ b d1 d2 len rest rest', fits t xyz occ b -> t_charge t = 0 ->
+  neutral_tail d1 d2 -> (78 < len)%nat ->
+  read_atom (concat (atom_head t xyz occ b) ++ [d1; d2] ++ rest) len = read_atom (atom_line t xyz occ b ++ rest') 81.
+Proof.
+  intros t xyz occ b d1 d2 len rest rest' F Hq Ht Hlen.
+  rewrite (atom_line_roundtrip t xyz occ b rest' F), (atom_head_read t xyz occ b d1 d2 len rest F Hlen), Hq.
+  destruct Ht as [[-> ->]|[[-> ->]|[[-> ->]|[[-> ->]|[-> ->]]]]]; reflexivity.
+Qed.
+
+(* and the full line really is columns 1-78 followed by two blanks when the charge is 0 *)
+Lemma atom_line_neutral : forall t xyz occ b, t_charge t = 0 ->
+  atom_line t xyz occ b = concat (atom_head t xyz occ b) ++ [32; 32].
+Proof.
+  intros t xyz occ b Hq. unfold atom_line, atom_pieces. rewrite concat_app, Hq. cbn [concat write_charge fst snd].
+  rewrite app_nil_r. reflexivity.
 Qed.
 
 (* non-vacuity: HETATM 100000 (hybrid-36 serial A0000), atom HO5' of residue 0PR in chain AA, number -999 with
